@@ -100,6 +100,22 @@ def run(ctx):
             traces.append(t)
             info[t["id"]] = dict(meta, src="chain", advance=True, link=link)
     res.coverage["chained_requests"] = n_chain * 3
+    # a long run on one fresh manager: hundreds of distinct headers, earlier requests sent again at the distances
+    # bounded tables have (in requests of five headers each: 256 headers lie 52 requests back)
+    from .. import longrun
+    lbench = blockx.Bench()
+    seen, n_long = {}, 0
+    for step in longrun.revisit_schedule(ctx.pick(90, 300), distances=(1, 2, 7, 12, 13, 25, 26, 51, 52, 53, 64, 65),
+                                         every=ctx.pick(5, 3)):
+        if step[0] == "new":
+            seen[step[1]] = reqs.blocks(ctx.rng, 3, True, bro_counts=[1, 0, 1])
+        bl = seen[step[1]]
+        t, meta = lbench.run(bl, True, FaithfulBlockPolicy(), ctx.rng, coop=True)
+        t["id"] = len(traces) + 1
+        traces.append(t)
+        info[t["id"]] = dict(meta, src="long-run", advance=True, step=step[0] if step[0] == "new" else "again@%d" % step[2])
+        n_long += 1
+    res.coverage["long_run_requests"] = n_long
     # headers sized at the boundaries where the encodings change form
     n_bound = 0
     targets = blockx.BOUNDARY_LENGTHS + (blockx.BOUNDARY_LENGTHS_BIG if not ctx.quick else blockx.BOUNDARY_LENGTHS_BIG[-1:])
